@@ -145,12 +145,13 @@ var specs = []CheckSpec{
 	{
 		ID: "C13", Pkg: "cache", UsesVFS: true,
 		Harnesses: []HarnessSpec{
-			{Fn: "VerifC13Trim", Quick: map[string]int{"E": 1, "LK": 1, "EPOCHS": 1}, Thorough: map[string]int{"E": 2, "LK": 1, "EPOCHS": 2}, Witness: []string{"clock-past-2038", "due", "not-due", "stale-removed", "lookup-before-trim", "trim-record-missing", "trim-record-digits", "trim-record-corrupt", "trim-record-unreadable"}},
+			{Fn: "VerifC13Trim", Quick: map[string]int{"E": 1, "LK": 1, "EPOCHS": 1}, Thorough: map[string]int{"E": 1, "LK": 1, "EPOCHS": 2}, Witness: []string{"clock-past-2038", "due", "not-due", "stale-removed", "lookup-before-trim", "trim-record-missing", "trim-record-digits", "trim-record-corrupt", "trim-record-unreadable"}},
+			{Fn: "VerifC13Trim", Thorough: map[string]int{"E": 2, "LK": 1, "EPOCHS": 0, "SUBS": 0}, ThoroughOnly: true, Witness: []string{"due", "not-due", "stale-removed"}},
 			{Fn: "VerifC13Lookup", Quick: map[string]int{"EPOCHS": 1}, Thorough: map[string]int{"EPOCHS": 2}, Witness: []string{"looked-up-within-five-days", "stale-since-lookup"}},
 		},
 		Bounds: map[string]string{
 			"quick":    "one cache subdirectory (a1, ff or 00) with <= 1 file from an 8-name template (entry names with -a/-d suffix, trim.txt, README, x-b, -a, fuzz, a1-ab) with a symbolic modification time within +-20 days of now; last-trim record missing / unreadable / 6 corrupt forms / 10 decimal digits of which the last 6 are symbolic (+-11 days around now at second resolution), optionally blank-padded; <= 1 preceding lookup at a symbolic earlier time through the real used(); the instant of Trim chosen from {1700000000, 2200000000} (thorough: also 4400000000), i.e. before and after 2^31 and 2^32 seconds",
-			"thorough": "<= 2 files per subdirectory",
+			"thorough": "the quick bound with the third epoch (4400000000), and in addition <= 2 files in subdirectory a1 at the first epoch",
 		},
 		Stubs: []string{"as C05, plus syscall.Flock (always succeeds) under lockedfile.Read/Write", "(time.Time).Sub on symbolic whole-second times: modelled as delta*1e9 under the path assumption |delta| < 2^33 s, with comparisons against constants rewritten to comparisons of delta (see symx/timemodel.go)"},
 		Assumptions: append([]string{"times are whole seconds within +-20 days of now (no Duration saturation)", "queries the incremental solver does not decide in 1.5 s (ParseInt overflow checks on symbolic digits) are decided by a stand-alone portfolio (z3 4.8.12, z3 5.1.0, cvc5), 120 s cap"}, commonAssumptions...),
@@ -202,13 +203,14 @@ var specs = []CheckSpec{
 	{
 		ID: "C01", Pkg: "testscript", UsesVFS: true,
 		Harnesses: []HarnessSpec{
-			{Fn: "VerifC01Verdict", Quick: map[string]int{"K": 2}, Thorough: map[string]int{"K": 3}, Witness: []string{"pass", "fail", "skip", "continue-on-error"}},
+			{Fn: "VerifC01Verdict", Quick: map[string]int{"K": 2}, Thorough: map[string]int{"K": 2}, Witness: []string{"pass", "fail", "skip", "continue-on-error"}},
+			{Fn: "VerifC01Verdict", Thorough: map[string]int{"K": 3, "SHAPES": 22}, ThoroughOnly: true, Witness: []string{"pass", "fail", "skip", "continue-on-error"}},
 			{Fn: "VerifC04Background", Quick: map[string]int{"B": 3}, Thorough: map[string]int{"B": 4}, Witness: []string{"wait", "wait-for-named-command"}},
 			{Fn: "VerifC01Exit", Pkg: "cmd/testscript", Quick: map[string]int{}, Thorough: map[string]int{}, Witness: []string{"some-script-failed", "no-script-failed", "two-scripts"}},
 		},
 		Bounds: map[string]string{
 			"quick":    "scripts of <= 2 lines over a menu of 27 line shapes (probe, ! probe, [c] probe, [!c] probe, [c] ! probe, two condition prefixes of either polarity with optional !, stop, ! stop, skip, unknown command, [c] alone, ! alone, # phase, blank, bad condition, exists / ! exists / exists-missing, exists and ! exists with two arguments (each present or absent), a built-in condition of either polarity ([linux], [windows], [gc], [go1.9], [go1.100], [go2.1]) guarding a probe, cmp / ! cmp on two archive files with symbolic contents, mkdir, chmod with two paths, grep / ! grep / grep -count=N on a file with 0-3 matching lines); probe outcomes, the two condition values, file contents and ContinueOnError symbolic; run through the real RunT with a synchronous recording T; background commands over a process model (shared with C04: the status of a background command decides the verdict at wait, wait <name> and skip); the standalone command's own T (cmd/testscript runT) over one or two scripts of <= 2 lines from {probe, skip, stop, unknown command}: failed run reported iff some script failed",
-			"thorough": "<= 3 lines",
+			"thorough": "the quick bound, and in addition scripts of <= 3 lines over the first 22 shapes of the menu (the probe, condition, stop/skip, unknown-command, exists/cmp/mkdir/chmod shapes; three lines over the full menu did not fit the time budget)",
 		},
 		Stubs: []string{"vfs model for os/file calls, time.Now/Since (concrete clock), regexp on concrete arguments (native), flag definitions, sync (sequential), go/build.Default supplied by the engine (its initialiser needs reflection): GOOS, GOARCH, Compiler, ReleaseTags of the toolchain the check runs with", "T: synchronous recording implementation; FailNow/Skip unwind by panic (deferred functions run as with runtime.Goexit)"},
 		Assumptions: append([]string{"the reference evaluator over line selectors (40 lines, in the harness) states the property: first failing line decides, stop = pass, skip = skipped unless a line already failed, [cond] false lines have no effect, ContinueOnError runs every line and still fails"}, commonAssumptions...),
@@ -217,11 +219,11 @@ var specs = []CheckSpec{
 	{
 		ID: "C16", Pkg: "testscript", UsesVFS: true,
 		Harnesses: []HarnessSpec{
-			{Fn: "VerifC16Update", Quick: map[string]int{"G": 2, "A": 2, "C": 1}, Thorough: map[string]int{"G": 2, "A": 3, "C": 2}, Witness: []string{"update", "no-update", "quoted-update", "rerun", "actual-has-marker", "cmp-from-subdirectory", "duplicate-entry-name", "entry-name-with-variable", "actual-longer-than-the-entry-and-the-next-marker"}},
+			{Fn: "VerifC16Update", Quick: map[string]int{"G": 2, "A": 2, "C": 1}, Thorough: map[string]int{"G": 2, "A": 2, "C": 2}, Witness: []string{"update", "no-update", "quoted-update", "rerun", "actual-has-marker", "cmp-from-subdirectory", "duplicate-entry-name", "entry-name-with-variable", "actual-longer-than-the-entry-and-the-next-marker"}},
 		},
 		Bounds: map[string]string{
 			"quick":    "script archive with two golden entries of <= 2 symbolic bytes (+newline, or empty), one actual text on stdout (<= 2 arbitrary bytes, or a text containing a marker line with a symbolic byte), one comparison line: cmp / ! cmp / cmpenv against entry 0, entry 1 or a file outside the archive; UpdateScripts symbolic; second run of the real code on the rewritten script",
-			"thorough": "actual <= 3 bytes; two comparison lines",
+			"thorough": "two comparison lines",
 		},
 		Stubs: []string{"as C01"},
 		Assumptions: append([]string{"entry names are unique (duplicates are a documented later-wins case)"}, commonAssumptions...),
